@@ -52,6 +52,8 @@ func (c *Ctx) codecRun() map[string]*simpleVerdict {
 			}
 		}
 		rec("", maxLen)
+		// the last code points of the Basic Multilingual Plane, the replacement character, NUL and a backslash are text like any other
+		strs = append(strs, "a\uffffb", "\uffff", "\ufffe'", "\ufffd\"", "a\x00b", "\\", "a\\'", "\\\\", "x\uffff\uffffy", "'\uffff'")
 		nw := 6
 		for w := 0; w < nw; w++ {
 			wg.Add(1)
